@@ -152,8 +152,7 @@ Print Assumptions C12_entries_of_one_option.
 Theorem C12_file_round_trip :
   forall (orc : oracles) (incd comd incc : bool) (root : command) (r : rt) (text : str),
          write_ini orc incd comd incc root r = Ok text ->
-         (forall (sn : str) (g : group),
-          In (sn, g) (ini_groups root) -> group_any orc incd comd incc g r = true -> section_name_ok sn) ->
+         section_names_ok orc incd comd incc (ini_groups_own root) r ->
          (forall (sn : str) (g : group) (o : opt),
           In (sn, g) (ini_groups root) -> In o (grp_opts g) -> opt_ok orc incd incc o r) ->
          exists file : ini_file,
@@ -179,8 +178,7 @@ Print Assumptions C12_file_round_trip.
 Theorem C12_file_round_trip_per_name :
   forall (orc : oracles) (incd comd incc : bool) (root : command) (r : rt) (text : str),
          write_ini orc incd comd incc root r = Ok text ->
-         (forall (sn : str) (g : group),
-          In (sn, g) (ini_groups root) -> group_any orc incd comd incc g r = true -> section_name_ok sn) ->
+         section_names_ok orc incd comd incc (ini_groups_own root) r ->
          (forall (sn : str) (g : group) (o : opt),
           In (sn, g) (ini_groups root) -> In o (grp_opts g) -> opt_ok orc incd incc o r) ->
          exists file : ini_file,
@@ -228,8 +226,7 @@ Print Assumptions C12_value_texts_wellformed.
 Theorem C12_file_round_trip_from_values :
   forall (orc : oracles) (incd comd incc : bool) (root : command) (r : rt) (text : str),
          write_ini orc incd comd incc root r = Ok text ->
-         (forall (sn : str) (g : group),
-          In (sn, g) (ini_groups root) -> group_any orc incd comd incc g r = true -> section_name_ok sn) ->
+         section_names_ok orc incd comd incc (ini_groups_own root) r ->
          (forall (sn : str) (g : group) (o : opt),
           In (sn, g) (ini_groups root) -> In o (grp_opts g) -> opt_decl_ok orc incc o r) ->
          exists file : ini_file,
